@@ -94,26 +94,26 @@ CHECKS = {
 
 # families added after the seeded rounds (DESIGN.md 9.5); appended to the level text
 EXT = {
- "C01": "Also: window-complete (de Bruijn) medium words, lopsided neutral-free families (one/two minority residues at every position, a minority block at offsets 0..6 inside majorities of 20..68/12..90), eight 260-340-residue patterns with more than 256 residues of a class, the exact delta after kappa on the same object, construction-route rotation (plain/lower/spaced/mixed case/SeqObj). Rounds 7-8: a 7-17-residue neutral flank next to adjacent blocks; calls made in varying interpreter states (numpy errors raising, warnings as errors, ASCII-only/None/write-only stdout) and through deepcopy / pickle construction routes.",
- "C02": "Also: structured long families to 1000 residues, every length 1..200/520 ascending and descending in a fresh package, >1000-residue shared-termini sequences, shared-core families (same irregular core between 0/1/3/8 neutral residues), window-complete medium words, construction-route rotation. Rounds 7-8: four patterns at 4101/4500/8200 residues (thorough 16390); varying interpreter states and deepcopy / pickle routes.",
+ "C01": "Also: window-complete (de Bruijn) medium words, lopsided neutral-free families (one/two minority residues at every position, a minority block at offsets 0..6 inside majorities of 20..68/12..90), eight 260-340-residue patterns with more than 256 residues of a class, the exact delta after kappa on the same object, construction-route rotation (plain/lower/spaced/mixed case/SeqObj). Rounds 7-8: a 7-17-residue neutral flank next to adjacent blocks; calls made in varying interpreter states (numpy errors raising, warnings as errors, ASCII-only/None/write-only stdout) and through deepcopy / pickle construction routes. Round 9: one charged residue or two adjacent ones at every position of a neutral chain up to 40/60.",
+ "C02": "Also: structured long families to 1000 residues, every length 1..200/520 ascending and descending in a fresh package, >1000-residue shared-termini sequences, shared-core families (same irregular core between 0/1/3/8 neutral residues), window-complete medium words, construction-route rotation. Rounds 7-8: four patterns at 4101/4500/8200 residues (thorough 16390); varying interpreter states and deepcopy / pickle routes. Round 9: sparsely charged linkers of every length 20..120/400 with two to four charges 1..7 apart in every sign combination.",
  "C03": "Also: the >=18-neutral lattice to total 32/50 (minority <=6 to 80), regime-intersection lattices (one charge type x n0 in 18..36/90; no neutrals with a minority of 1..8 against a majority to 48/96; n0 in {1,17} with small minorities), ten compositions with >256 residues of a class, permutant asked with truthy non-True flags after the value is cached. Rounds 7-8: two compositions with slides of 600 positions; varying interpreter states.",
- "C04": "Also: 13 further spellings of the PPII scale name, 1000-12000-residue sequences over all 20 residues, an after-context pass (16 other API calls incl. kappa_X with absent groups, each followed by 14 composition getters) and the same getters on four derived objects (permutant, two shuffles, SeqObj-sharing wrapper). Rounds 7-8: the getters on eight derived objects (permutant, shuffles, wrappers, deepcopy, copy, pickle); varying interpreter states.",
+ "C04": "Also: 13 further spellings of the PPII scale name, 1000-12000-residue sequences over all 20 residues, an after-context pass (16 other API calls incl. kappa_X with absent groups, each followed by 14 composition getters) and the same getters on four derived objects (permutant, two shuffles, SeqObj-sharing wrapper). Rounds 7-8: the getters on eight derived objects (permutant, shuffles, wrappers, deepcopy, copy, pickle); varying interpreter states. Round 9: window-complete words of 19..61 residues over all 20 residues; X^aY^b of 101..300 residues whose Wimley-White mean nearly cancels.",
  "C05": "Also: window-complete medium words with their substitution variants. Round 8: varying interpreter states and construction routes.",
  "C06": "Also: every two-class word to length 10/13 for Omega, long words with one rare letter, window-complete words over {D,E,K,R,G,P} x all 729 assignments, collision histories on one reused object, ten container types for groups, invalid members incl. three-letter codes in absent groups. Round 8: varying interpreter states; the rejection battery once more under python -O.",
  "C07": "Also: structured long families (64..1000), patterns with more than 1024 charged residues at 1100/1501 (2600) residues, every length 2..200/520 in both directions in a fresh package, shared-core families, window-complete medium words, construction-route rotation. Rounds 7-8: 1023/1024/1025-residue patterns with charged termini (thorough 2047-2049, 4097); varying interpreter states.",
  "C08": "Also: near-threshold compositions for every chain length to 1300/6000, construction-route rotation. Round 8: varying interpreter states and deepcopy / pickle routes.",
  "C09": "Also: pH given as Python/numpy ints and float64, the bisection midpoints, floats adjacent to both bounds (nextafter, -1e-300, 0.3-3*0.1, +-inf), pI-first histories, a (count,length) lattice for every chain length to 200/600. Rounds 7-8: phosphosites registered before the pH queries on half of the S/T/Y-containing sequences; varying interpreter states; rejection under python -O.",
- "C10": "Also: windows of 128-300 residues, numpy-integer windows, repeated/duplicate/container-typed group lists, window-complete medium words, rejected window first on the same object and as the first request of a fresh package. Rounds 7-8: X^3Y^3 words and window-complete words over all 20 residues, group lists none of whose groups occurs; varying interpreter states; python -O.",
- "C11": "Also: windows of 256-512 residues, WF at every window length of 31-81-residue words over {L,K,F} and over all 20 residues, alphabet sizes as strings/floats/numpy numbers, rejected window first, one user-alphabet dictionary edited in place between calls. Rounds 7-8: positional calls in the documented order, extra keys in user alphabets, word sizes 1/3/6 for WF and LZW; varying interpreter states; python -O.",
- "C12": "Also: size spellings, three sweeps on one object, returned alphabets overwritten by the caller, each valid user alphabet in five other key orders with and without extra keys, invalid targets that are also keys, a rejected alphabet between two requests for the same size (all 12 sizes x 20 fault positions), one dictionary edited in place. Rounds 7-8: every (user alphabet, predefined size spelling) pair, whitespace-padded / bytes / container targets; varying interpreter states; python -O.",
- "C13": "Also: long strings to 3000 characters with up to 500 whitespace stretches, 2100-character strings with one foreign character from outside Latin-1, objects whose str() is a valid word (nan, inf, Decimal, paths, exceptions, UserString), every rejected string submitted three times, the SeqObj / SequencePermutants route, parser<->validator cross-talk in three orders. Rounds 7-8: strings constructed while the working directory holds files and directories of those names, the backend validator used as a query; varying interpreter states; python -O.",
- "C14": "Also: 11000-35000-residue files, rejected files through the constructor, non-ASCII digits, 13 undecodable byte strings at every position of the sequence lines (in-memory open honouring encoding/errors, and real binary files), 30-residue files over every residue, every residue pair and nucleotide-like sub-alphabets. Rounds 7-8: CR / CRLF / mixed line ends (the reference parser reads text files with universal newlines), files whose text exceeds 64/128 KiB, the silent flag by keyword / position / default, twelve spellings of file names incl. a directory symlink followed by ..; varying interpreter states; python -O.",
+ "C10": "Also: windows of 128-300 residues, numpy-integer windows, repeated/duplicate/container-typed group lists, window-complete medium words, rejected window first on the same object and as the first request of a fresh package. Rounds 7-8: X^3Y^3 words and window-complete words over all 20 residues, group lists none of whose groups occurs; varying interpreter states; python -O. Round 9: windows beyond 1000 residues over sparsely charged linkers; a group that is the union of two overlapping earlier groups.",
+ "C11": "Also: windows of 256-512 residues, WF at every window length of 31-81-residue words over {L,K,F} and over all 20 residues, alphabet sizes as strings/floats/numpy numbers, rejected window first, one user-alphabet dictionary edited in place between calls. Rounds 7-8: positional calls in the documented order, extra keys in user alphabets, word sizes 1/3/6 for WF and LZW; varying interpreter states; python -O. Round 9: a non-idempotent, merging user alphabet.",
+ "C12": "Also: size spellings, three sweeps on one object, returned alphabets overwritten by the caller, each valid user alphabet in five other key orders with and without extra keys, invalid targets that are also keys, a rejected alphabet between two requests for the same size (all 12 sizes x 20 fault positions), one dictionary edited in place. Rounds 7-8: every (user alphabet, predefined size spelling) pair, whitespace-padded / bytes / container targets; varying interpreter states; python -O. Round 9: sequences whose letter set is the representative list of a predefined size x every size; a non-idempotent merging user alphabet.",
+ "C13": "Also: long strings to 3000 characters with up to 500 whitespace stretches, 2100-character strings with one foreign character from outside Latin-1, objects whose str() is a valid word (nan, inf, Decimal, paths, exceptions, UserString), every rejected string submitted three times, the SeqObj / SequencePermutants route, parser<->validator cross-talk in three orders. Rounds 7-8: strings constructed while the working directory holds files and directories of those names, the backend validator used as a query; varying interpreter states; python -O. Round 9: raw lengths 1023-1026 / 2047-2050 / 4097 with every kind of last character.",
+ "C14": "Also: 11000-35000-residue files, rejected files through the constructor, non-ASCII digits, 13 undecodable byte strings at every position of the sequence lines (in-memory open honouring encoding/errors, and real binary files), 30-residue files over every residue, every residue pair and nucleotide-like sub-alphabets. Rounds 7-8: CR / CRLF / mixed line ends (the reference parser reads text files with universal newlines), files whose text exceeds 64/128 KiB, the silent flag by keyword / position / default, twelve spellings of file names incl. a directory symlink followed by ..; varying interpreter states; python -O. Round 9: 22 header styles and a sequence spelt in three-letter-code words under every group size.",
  "C15": "Also: all ordered same-object call pairs, 56+ ordered input pairs chosen to collide on coarse cache keys, nine context groups from other API areas (plots, moves, files, WL run, rejected calls, accepted-but-degenerate arguments, setters on derived objects), returned containers overwritten by the harness. Rounds 7-8: every query made while numpy errors raise, warnings are errors and stdout is ASCII-only; six module-reload contexts (all in two orders, four single modules) after which the session goes on with new, derived and wrapped objects and plots.",
- "C16": "Also: two-epoch histories, interleaved read-only queries, sequences whose phospho-states lie in kappa's clamp window, 6- and 7-site sequences (64/128 on-off states), returned lists overwritten by the caller followed by one more transition, independent shuffled copies, numpy integers of seven widths. Rounds 7-8: an 11-site sequence (2048 states), list arguments not edited, two wrappers around one backend object, pickle / deepcopy duplicates, every seventh transition in a strict interpreter state; python -O.",
+ "C16": "Also: two-epoch histories, interleaved read-only queries, sequences whose phospho-states lie in kappa's clamp window, 6- and 7-site sequences (64/128 on-off states), returned lists overwritten by the caller followed by one more transition, independent shuffled copies, numpy integers of seven widths. Rounds 7-8: an 11-site sequence (2048 states), list arguments not edited, two wrappers around one backend object, pickle / deepcopy duplicates, every seventh transition in a strict interpreter state; python -O. Round 9: a phospho-state beyond kappa's clamp window; same-letter sites at positions 1 and 10.",
  "C17": "Also: six 10-14-residue patterns with 6-11 residues of one sign for the retry moves, frozen sets with members outside the sequence, numpy-integer frozen collections, warmed parent caches with child analyses and the child's delta-max permutant, consistency of the returned public object, two-move sequences, a reused frozen-set object; trees are bounded (6 constructions per move, 5000 executions) and reported as capped if cut. Rounds 7-8: pair-swap positions -L..L-1, moves made in varying interpreter states.",
- "C18": "Also: non-dyadic ranges, a machine run twice, same-composition sequences in one package, long base-tape runs with g>10, slow-start configurations, a configuration with frozen residues, bin walks (one composition under every bin count 1..12), a 22-residue irregular input with six 0.1-wide bins, bin geometry for every equal partition into 1..256 bins, thresholds at or above the initial f (zero steps). Rounds 7-8: flat-check periods 41/45/64/70, flatness criterion 0, the acceptance draw exactly equal to the acceptance probability.",
- "C19": "Also: polygons x every composition to 80/150, varying numbers of unlabelled sequences in one process, rejected-call-then-plot, all homopolymers, coordinates as strings/numpy numbers, numeric labels incl. zero on ordinary and extreme (>0.8) markers, markers sharing an x-coordinate, every save format followed by further plots with nothing closed by the caller, 221/300-residue linear plots. Rounds 7-8: five further pairs of axis limits on every entry point, region containment on five zoomed diagrams, saves to a bare file name in a working directory on another file system.",
- "C20": "Also: caller-edited dictionaries, first object of a fresh package, extra keys (accepted, ignored), six other key orders, analyses/plots/shuffles between update and rendering, two handles on one sequence object. Rounds 7-8: first palette updates on five kinds of derived object, renders of 2551-12851 residues (thorough 51201), pickle / deepcopy / copy duplicates, all colours in a strict interpreter state; python -O.",
+ "C18": "Also: non-dyadic ranges, a machine run twice, same-composition sequences in one package, long base-tape runs with g>10, slow-start configurations, a configuration with frozen residues, bin walks (one composition under every bin count 1..12), a 22-residue irregular input with six 0.1-wide bins, bin geometry for every equal partition into 1..256 bins, thresholds at or above the initial f (zero steps). Rounds 7-8: flat-check periods 41/45/64/70, flatness criterion 0, the acceptance draw exactly equal to the acceptance probability. Round 9: one-bin runs in which ln f falls to 2^-30 within 30 steps (g must be updated in double precision).",
+ "C19": "Also: polygons x every composition to 80/150, varying numbers of unlabelled sequences in one process, rejected-call-then-plot, all homopolymers, coordinates as strings/numpy numbers, numeric labels incl. zero on ordinary and extreme (>0.8) markers, markers sharing an x-coordinate, every save format followed by further plots with nothing closed by the caller, 221/300-residue linear plots. Rounds 7-8: five further pairs of axis limits on every entry point, region containment on five zoomed diagrams, saves to a bare file name in a working directory on another file system. Round 9: wide-window (33, 75, N-1) linear plots over charge-rich 222/242-residue sequences.",
+ "C20": "Also: caller-edited dictionaries, first object of a fresh package, extra keys (accepted, ignored), six other key orders, analyses/plots/shuffles between update and rendering, two handles on one sequence object. Rounds 7-8: first palette updates on five kinds of derived object, renders of 2551-12851 residues (thorough 51201), pickle / deepcopy / copy duplicates, all colours in a strict interpreter state; python -O. Round 9: runs of 10-25 identical residues at offsets 38..52 and A^kB^k blocks; a missing residue together with extra keys.",
 }
 
 
